@@ -223,14 +223,89 @@ def op_sites(run) -> List[OpSite]:
                     else:
                         op_kwargs[k.arg] = k.value
             else:
-                # a local dict built incrementally: kwargs = {...}; kwargs["k"] = v
-                op_kwargs = _local_dict_keys(fi, ok_)
-                if op_kwargs is None:
-                    open_ = True
+                # a local dict built incrementally: kwargs = {...}; kwargs["k"] = v; kwargs.update(...)  -- as seen by *this* call
+                df = dict_facts_at(fi, ok_.id, n) if isinstance(ok_, ast.Name) else None
+                if df is not None:
+                    op_kwargs, open_ = df
+                else:
+                    op_kwargs = _local_dict_keys(fi, ok_)
+                    if op_kwargs is None:
+                        open_ = True
             out.append(OpSite(fi, n, n.func.attr, op_expr, op_cls, tensors, star, op_args, op_kwargs, open_,
                               kw(n, "constant"), kw(n, "out"), why))
     out.sort(key=lambda s: (s.fi.qualname, s.call.lineno, s.call.col_offset))
     return out
+
+
+def _dict_literal(v: ast.expr):
+    """(keys, open) of a dict display / dict(...) call, or None"""
+    if isinstance(v, ast.Dict):
+        keys, open_ = {}, False
+        for k, val in zip(v.keys, v.values):
+            if k is None or not (isinstance(k, ast.Constant) and isinstance(k.value, str)):
+                open_ = True
+            else:
+                keys[k.value] = val
+        return keys, open_
+    if isinstance(v, ast.Call) and dotted(v.func) == "dict" and not v.args:
+        keys, open_ = {}, False
+        for k in v.keywords:
+            if k.arg is None:
+                open_ = True
+            else:
+                keys[k.arg] = k.value
+        return keys, open_
+    return None
+
+
+def dict_facts_at(fi: FunctionInfo, name: str, call: ast.Call):
+    """Flow-sensitive key set of the local dict `name` as seen by `call`: the keys of every full assignment reaching the call, plus the keys
+    added by `name[k] = v` / `name.update(...)` statements that lie on some path from such an assignment to the call.
+    Returns (keys, open) -- open: a ** splat or an update with a non-literal argument may contribute unknown keys -- or None."""
+    from ..cfg import CFG, ENTRY, reaching_defs
+    cfg = CFG(fi.node)
+    at = cfg.stmt_node_containing(call)
+    if at is None:
+        return None
+    defs = reaching_defs(cfg, name, at)
+    if not defs or ENTRY in defs:
+        return None
+    keys: Dict[str, ast.expr] = {}
+    open_ = False
+    for d in defs:
+        lit = _dict_literal(getattr(cfg.stmt[d], "value", None))
+        if lit is None:
+            return None
+        keys.update(lit[0])
+        open_ = open_ or lit[1]
+    def_nodes = {n for n, st in cfg.stmt.items() if isinstance(st, (ast.Assign, ast.AnnAssign)) and any(
+        isinstance(t, ast.Name) and t.id == name for t in (st.targets if isinstance(st, ast.Assign) else [st.target]))}
+    for n, st in cfg.stmt.items():
+        add = None
+        if isinstance(st, ast.Assign) and len(st.targets) == 1 and isinstance(st.targets[0], ast.Subscript) and norm(st.targets[0].value) == name:
+            sl = st.targets[0].slice
+            add = ({sl.value: st.value}, False) if isinstance(sl, ast.Constant) and isinstance(sl.value, str) else ({}, True)
+        elif isinstance(st, ast.Expr) and isinstance(st.value, ast.Call) and isinstance(st.value.func, ast.Attribute) \
+                and norm(st.value.func.value) == name and st.value.func.attr in ("update", "setdefault"):
+            c = st.value
+            if c.func.attr == "update" and len(c.args) == 1 and _dict_literal(c.args[0]) is not None:
+                add = _dict_literal(c.args[0])
+            elif c.func.attr == "update" and not c.args and all(k.arg for k in c.keywords):
+                add = ({k.arg: k.value for k in c.keywords}, False)
+            elif c.func.attr == "setdefault" and c.args and isinstance(c.args[0], ast.Constant):
+                add = ({c.args[0].value: c.args[1] if len(c.args) > 1 else ast.Constant(None)}, False)
+            else:
+                add = ({}, True)
+        if add is None or n == at:
+            continue
+        # the modification counts if it can happen after a reaching assignment and before the call without another assignment in between
+        h = cfg.g.copy()
+        h.remove_nodes_from(def_nodes - set(defs))
+        import networkx as nx
+        if n in h and at in h and any(d in h and nx.has_path(h, d, n) for d in defs) and nx.has_path(h, n, at):
+            keys.update(add[0])
+            open_ = open_ or add[1]
+    return keys, open_
 
 
 def _local_dict_keys(fi: FunctionInfo, expr: ast.expr) -> Optional[Dict[str, ast.expr]]:
